@@ -10,6 +10,7 @@ import importlib
 import sys
 
 _originals = {}  # (module_name, attr) -> original
+MISSING = []  # hook targets that do not exist in the tree under test (private names may be refactored away)
 
 
 def mod(name):
@@ -28,6 +29,10 @@ def replace(module_name, attr, factory):
     key = (module_name, attr)
     orig = _originals.get(key)
     if orig is None:
+        if not hasattr(m, attr):
+            # a private helper that is not there (any more): nothing to hook; the boundary judges do not depend on it
+            MISSING.append(f"{module_name}.{attr}")
+            return 0
         orig = getattr(m, attr)
         _originals[key] = orig
     current = getattr(m, attr)
@@ -56,6 +61,9 @@ def original(module_name, attr):
 
 
 def replace_method(cls, attr, factory):
+    if attr not in cls.__dict__:
+        MISSING.append(f"{cls.__name__}.{attr}")
+        return None
     orig = cls.__dict__[attr]
     new = factory(orig)
     setattr(cls, attr, new)
